@@ -219,6 +219,17 @@ def programs_noncontig(tier):
     progs.append(Program("nc65", structs=[S("nc65", 65, [
         F("x", T_u(5), [(62, 3), (0, 2)]),                 # range 62..=64 crosses the u64 boundary of an arbitrary base
     ])], props=("C04", "C11", "C16")))
+    progs.append(Program("nc16f", structs=[S("nc16f", 16, [
+        F("perm", T_u(16), [(0, 4), (12, 4), (4, 8)]),           # FULL-width permutation whose first entry starts at bit 0
+    ])], props=("C04", "C16", "C13")))
+    progs.append(Program("nc32f", structs=[S("nc32f", 32, [
+        F("swapped", T_u(32), [(0, 8), (16, 8), (8, 8), (24, 8)]),   # full-width, middle bytes swapped
+    ])], props=("C04", "C16")))
+    progs.append(Program("ncadj", structs=[S("ncadj", 32, [
+        F("a", T_u(8), [(0, 4), (4, 4)]),                         # adjacent consecutive entries (could be one range, but is declared as two)
+        F("b", T_u(8), [(20, 4), (12, 1), (13, 3)]),              # single bit followed by the multi-bit entry that continues it
+        F("c", T_u(8), [(24, 2), (26, 2), (16, 4)], array=None),
+    ])], props=("C04", "C16", "C12", "C13")))
     progs.append(Program("nc24", structs=[S("nc24", 24, [
         F("p", T_u(5), [(23, 1), (0, 4)]),                 # top exposed bit first
         F("q", T_u(8), [(4, 2), (8, 2), (12, 2), (16, 2)]),
@@ -258,6 +269,13 @@ def programs_signed(tier):
     progs.append(Program("sg64", structs=[S("sg64", 64, [
         F("a", T_i(32), (32, 32)),
         F("b", T_i(16), (0, 16), array=(2, None)),
+    ])], props=("C05", "C03", "C16")))
+    progs.append(Program("sg32a", structs=[S("sg32a", 32, [
+        F("lane", T_i(8), (0, 8), array=(4, None)),              # signed array whose LAST element ends at the top bit
+    ])], props=("C05", "C03", "C16", "C13", "C12")))
+    progs.append(Program("sg64a", structs=[S("sg64a", 64, [
+        F("hi", T_i(16), (16, 16), array=(2, 32)),               # 16..=31, 48..=63
+        F("lo", T_u(16), (0, 16)),
     ])], props=("C05", "C03", "C16")))
     progs.append(Program("sg24", structs=[S("sg24", 24, [
         F("a", T_i(8), (16, 8)),
